@@ -590,13 +590,35 @@ pub fn c18(tier: Tier, report: &mut Report) {
         .cloned()
         .collect();
     let curated = FstDictionary::curated();
-    let n = total + seeds.len() as u64;
+    // every cased/alphabetic Unicode scalar value at the start, inside and at the end of a word
+    // (multi-character case mappings, title-case digraphs, ligatures, astral letters)
+    let mut charfam: Vec<String> = vec![];
+    for cp in 0x80u32..=0x1FFFF {
+        let Some(c) = char::from_u32(cp) else { continue };
+        if !(c.is_alphabetic()) {
+            continue;
+        }
+        let special = c.to_uppercase().count() != 1
+            || c.to_lowercase().count() != 1
+            || c.to_uppercase().next() != Some(c)
+            || c.to_lowercase().next() != Some(c);
+        if !special && tier == Tier::Quick {
+            continue; // uncased letters only in the thorough tier
+        }
+        charfam.push(format!("{c}ab"));
+        charfam.push(format!("the a{c}b of"));
+        charfam.push(format!("ab{c} and"));
+    }
+    let nchar = charfam.len() as u64;
+    let n = total + seeds.len() as u64 + nchar;
     let results = par_chunks(n, 5000, ncpu(), |s, e| {
         let mut viols: Vec<Violation> = vec![];
         let mut changed = 0u64;
         let mut outcomes = BTreeSet::new();
         for idx in s..e {
-            let text = if idx < total {
+            let text = if idx >= total + seeds.len() as u64 {
+                charfam[(idx - total - seeds.len() as u64) as usize].clone()
+            } else if idx < total {
                 let mut l = 0usize;
                 while l < maxlen && idx >= offs[l + 1] {
                     l += 1;
@@ -643,6 +665,7 @@ pub fn c18(tier: Tier, report: &mut Report) {
     report.add("distinct_nontrivial", ch);
     report.set("token_sequences", total);
     report.set("seed_sentences", seeds.len() as u64);
+    report.set("unicode_letter_cases", nchar);
     report.sample(json!({"engine":"E1","text": "the iPhone and o’clock: x-ray"}));
     report.sample(json!({"engine":"E1","text": seeds.get(700).cloned().unwrap_or_default()}));
 }
